@@ -169,7 +169,7 @@ def main():
     run.add_tlc(res, f"HvsrObject export, initial assignments with hash bucket {run.seed} mod {k}")
     consts = (f"  NA = 1\n  NW = {nw}\n  NF = 6\n  Alphabet <- {alpha}\n  Ranges <- Ranges6\n  NSet <- NSetA\n"
               f"  MaxIts <- MaxItsA\n  TdMasks <- AllMasks\n  Boxes <- Boxes6\n  InitSel <- InitAll\n  SThr <- SThrHalf\n")
-    rp = hvsrobj.Replayer(run, hvsrpy, graph, ALPHA6[:alpha_n], 1, nw, 6, consts, focus={"ManualReject", "ManualSession", "Init"})
+    rp = hvsrobj.Replayer(run, hvsrpy, graph, ALPHA6[:alpha_n], 1, nw, 6, consts, focus={"ManualReject", "ManualSession", "PeakInStatistics", "Init"})
     import random
     pick = random.Random(run.seed)
     # the interactive session draws a figure per call: replay a seeded share of its transitions, mostly those in
@@ -188,7 +188,7 @@ def main():
     res, gm = hvsrobj.export_graph(exm, "C05-manual", {}, timeout=2400)
     run.add_tlc(res, "HvsrObject NextManualOnly from all 216 assignments: ManualStep (never re-accepts, removes exactly the boxed windows)")
     constsm = consts.replace(f"NW = {nw}", "NW = 3").replace(alpha, "Alpha6a").replace("Ranges6\n", "Ranges6s\n")
-    rpm = hvsrobj.Replayer(run, hvsrpy, gm, ALPHA6[:6], 1, 3, 6, constsm, focus={"ManualSession", "Init"})
+    rpm = hvsrobj.Replayer(run, hvsrpy, gm, ALPHA6[:6], 1, 3, 6, constsm, focus={"ManualSession", "PeakInStatistics", "Init"})
     shm = (0.15, 0.005) if quick else (0.9, 0.03)
     mfilter = lambda a, t: pick.random() < (shm[0] if any(x and not y for x, y in zip(t["s"]["vw"][0], t["t"]["vw"][0])) and t["t"]["r"] == t["s"]["r"] else shm[1])
     for fenc, aenc in (("N", "N"), ("L", "L")):
